@@ -20,3 +20,5 @@ Definition c14_der_encode_key := der_encode_key.
 Definition c14_pem_decode_key := pem_decode_key.
 Definition c14_pubkey_from_pem := pubkey_from_pem.
 Definition c14_cli_pubkey := cli_pubkey.
+(* a sequence of dict-mode decodes in one process: every result is what a fresh decode of that string gives *)
+Definition c14_wif_decode_seq (sha256 : bytes -> bytes) (ws : list bytes) := mapM (wif_decode_full sha256) ws.
